@@ -48,6 +48,16 @@ CHECKS = {
              "encapsulation obligations; ground instances of the sequence rule library (Lean-proved); refutations are replayed by stepping "
              "pickle._Unpickler and fickling side by side (replay/shape_diff.py); per-opcode obligations are the inductive step over program prefixes.",
         ref="§C09"),
+    "C03": dict(
+        text="Proof: for every opcode class, the run is verified (for every symbolic stack, memo and module body) against 'module_body only "
+             "grows, and every event the VM step performs (S3: import / call / build / persistent_load, with the operand nodes themselves as "
+             "callee and arguments) is anchored by one of the statements this step appended'; Interpreter.step is verified to assemble the "
+             "module from the whole body; refusal: do-nothing runs are allowed only for nil-effect opcodes and Opcode.__new__ raises for names "
+             "it does not know. The induction over programs is the per-opcode step (append-only body makes it inductive).",
+        note="Trusted: S3 event table (written from pickletools docs / the statement); node identity stands for 'same callee and arguments' "
+             "(value correspondence is C05); builtins aliases owe no import; name capture by a later identical identifier is outside the "
+             "per-opcode obligation (DESIGN C03); refutations are replayed with replay/event_diff.py (reference VM under inert stubs).",
+        ref="§C03"),
 }
 NA_REASON = "check not built yet (work in progress; see DESIGN.md)"
 
